@@ -9,6 +9,7 @@ import argparse, glob, hashlib, json, multiprocessing, os, random, re, subproces
 VERIF = "/verif"
 BUILD = VERIF + "/.build"
 COQ = VERIF + "/coq"
+OUT = os.environ.get("VERIF_OUT", VERIF)          # evidence/ and replays/ go here (seed evaluations redirect it)
 sys.path.insert(0, VERIF + "/py")
 
 from cc import gen, ops as O, oracle          # noqa: E402
@@ -205,6 +206,7 @@ def main():
     ap.add_argument("--seed", type=int, default=None)
     ap.add_argument("--no-build", action="store_true")
     ap.add_argument("--no-gate", action="store_true")
+    ap.add_argument("--seed-eval", action="store_true", help="evaluation of a seeded change: harness rebuilt, Coq side (independent of the repository) skipped")
     a = ap.parse_args()
     if a.pid == "replay":
         return replay(a.arg)
@@ -215,7 +217,13 @@ def main():
     spec = S.REGISTRY[pid]
     flavours = spec["flavours"][tier]
     # ---- builds
-    if not a.no_build:
+    if a.seed_eval:
+        a.no_gate = True
+        coq_built = True
+        ok3, out3 = build_harness(flavours, link_to=spec.get("link_to", False))
+        if not ok3:
+            log(out3[-3000:]); print("ERROR: harness does not build against the repository tree"); return 2
+    elif not a.no_build:
         ok, out = build_coq()
         coq_built = ok
         if not ok:
@@ -274,14 +282,14 @@ def main():
     # ---- verdict
     known = load_known()
     violations, known_hits = [], []
-    os.makedirs(VERIF + "/replays", exist_ok=True)
+    os.makedirs(OUT + "/replays", exist_ok=True)
     for sname, res, concrete, text in failures[:50]:
         sig = f"{sname} {text}"
         k = next((d for (p, rx, d) in known if p == pid and rx.search(sig)), None)
         if k is not None:
             known_hits.append(k)
             continue
-        path = f"{VERIF}/replays/{pid}-{prog_hash(res.get('prog', []))}.json"
+        path = f"{OUT}/replays/{pid}-{prog_hash(res.get('prog', []))}.json"
         json.dump({"property": pid, "suite": sname, "seed": seed, "tier": tier, "flavours": res.get("flavours"),
                    "program": res.get("prog"), "failing_step": res.get("fail"), "tree": res.get("tree"),
                    "concrete_failing_input": concrete, "explanation": text,
@@ -289,7 +297,7 @@ def main():
                   open(path, "w"), indent=1, default=str)
         violations.append((path, concrete, text))
     if gate["problems"]:
-        path = f"{VERIF}/replays/{pid}-coq-gate.json"
+        path = f"{OUT}/replays/{pid}-coq-gate.json"
         json.dump({"property": pid, "broken_tie": "Coq gate", "theorems": gate["theorems"], "problems": gate["problems"],
                    "concrete_failing_input": False}, open(path, "w"), indent=1)
         if not any(c for _, c, _ in violations):
@@ -320,7 +328,7 @@ def _abbrev(prog):
     return out
 
 def write_evidence(pid, tier, seed, spec, gate, stats, seen, samples, violations, wall, flavours):
-    os.makedirs(VERIF + "/evidence", exist_ok=True)
+    os.makedirs(OUT + "/evidence", exist_ok=True)
     ev = {
         "property_id": pid, "tier": tier, "seed": seed, "level": "proof",
         "coverage": {
@@ -342,7 +350,7 @@ def write_evidence(pid, tier, seed, spec, gate, stats, seen, samples, violations
         "assumptions": spec.get("assumptions", []) + S.COMMON_ASSUMPTIONS,
         "wall_s": round(wall, 1), "violations": len(violations),
     }
-    json.dump(ev, open(f"{VERIF}/evidence/{pid}.json", "w"), indent=1, default=str)
+    json.dump(ev, open(f"{OUT}/evidence/{pid}.json", "w"), indent=1, default=str)
 
 def replay(path):
     r = json.load(open(path))
